@@ -39,6 +39,15 @@ F(name, ok) == IF ok THEN {} ELSE {name}
 LocalView(a, b) == a.nis = b.nis /\ a.svcs = b.svcs /\ a.chks = b.chks
 RemoteView(a, b) == a.rnode = b.rnode /\ a.rsvcs = b.rsvcs /\ a.rchks = b.rchks
 
+\* local view after a sync: the specification is silent on whether the pending deregistration of a check is dropped
+\* when its service is deregistered (PrunedBy) or kept until its own call succeeds - an entry of `pruned` that the
+\* specification dropped may still be there, marked Deleted
+LocalViewPruned(exp, got, pruned) ==
+  /\ exp.nis = got.nis /\ exp.svcs = got.svcs
+  /\ \A id \in DOMAIN exp.chks \cup DOMAIN got.chks :
+        IF id \in pruned /\ id \notin DOMAIN exp.chks THEN (id \in DOMAIN got.chks => got.chks[id].del)
+        ELSE id \in DOMAIN exp.chks /\ id \in DOMAIN got.chks /\ exp.chks[id] = got.chks[id]
+
 \* local view where the InSync flag of the entries in `loose` is not compared
 NoIns(e) == [e EXCEPT !.ins = FALSE]
 LocalViewLoose(a, b, loose) ==
@@ -101,7 +110,7 @@ SyncJudge(pre, post, e) ==
      run.bad
   \cup F("rpc-seq", readsOK)
   \cup F("res", e.res.t = IF run.anyerr THEN "err" ELSE "ok")
-  \cup F("local-state", LocalView(run.st, post))
+  \cup F("local-state", LocalViewPruned(run.st, post, run.pruned))
   \cup F("remote-state", RemoteView(run.st, post))
   \cup F("NoFalseInSync", NoFalseInSync(pre, post, fresh, run.denied))
   \cup F("DeregNotForgotten", DeregNotForgotten(pre, post, {}))
